@@ -41,12 +41,112 @@ PROPS = {
         scope="bool, void, tuples up to 4 (for lawful components), int; arrays excepted",
         assumptions=[],
     ),
+    "C01": dict(
+        units=["u4v_stack", "u4a_ctrl", "u4_plumbing", "u1_int", "u3_str", "u5_array"],
+        level="model_checking",
+        level_text=("VM half of the property only: every arm of step() that the units cover is verified to run without panic, "
+                    "out-of-bounds access, arithmetic overflow or wrong-tag read under its operand precondition (tags as the opcode "
+                    "name says, enough operands on the stack, constant indices in range), to stop only with the documented runtime "
+                    "errors, and to leave the stack exactly as its contract says (Return/ReturnVoid: caller depth restored whatever the "
+                    "callee left). Stack/register helpers, stack/jump/constant/call arms, integer and string arms are Verus proofs for "
+                    "stacks of any size; value encodings are loop-free Kani proofs over all bit patterns; heap-touching arms (struct, "
+                    "variant, closure, array) are Kani proofs on concrete small shapes (bounded)."),
+        level_note=("Not decided: that the translator only emits code meeting each arm's operand precondition (typing of "
+                    "translate_bytecode.rs; e.g. break/continue in operand position), dispatch in step(), arms not listed in the evidence "
+                    "(float math intrinsics, StringFrom*, SpawnTask, Channel*, Panic, CallForeign). Trusted: Verus/Z3, Kani/CBMC, slicer and "
+                    "rewrite rules, vstd Vec specs, 64-bit usize."),
+        technique="deductive verification (Verus) of lifted real match arms and real helper functions + Kani harnesses on the real vm.rs",
+        scope="VM-level safety and stack discipline of step() arms",
+        assumptions=["operand preconditions of the arms are assumed to be established by the compiler (not verified)"],
+    ),
+    "C17": dict(
+        units=["u3_str"],
+        level="proof",
+        level_text=("The six string comparison arms and ConcatStrings are cut from vm.rs and verified by Verus as resumable state "
+                    "machines: from any state satisfying the invariant (common prefix of length idx / builder == (a++b)[..i1+i2]) one "
+                    "step either finishes with exactly lex order / a++b (byte sequences, any length, any bytes) or consumes one byte, "
+                    "rewinds pc, preserves the invariant and decreases the measure - hence the result is independent of step budgets. "
+                    "lex order = first differing byte decides, proper prefix is smaller; proved a total order."),
+        level_note=("Strings are their UTF-8 byte sequences (R4); content of a string object is a function of its pointer (immutability; "
+                    "liveness during the operation is C06's obligation, where string_operand1/2 are roots); from_utf8 of a concatenation of "
+                    "valid UTF-8 is assumed to succeed; that `!=` is Equal followed by Not is a syntactic check in C24's unit."),
+        technique="deductive verification (Verus) of lifted real match arms with per-step inductive contracts",
+        scope="string arms of the VM",
+        assumptions=[],
+    ),
+    "C26": dict(
+        units=["u5_array", "u3_str"],
+        level="model_checking",
+        level_text=("VM array instructions only (ConstructArray, GetIndex, SetIndex, ArrayPush, ArrayPushIntImm, ArrayLength, ArrayPop, "
+                    "DeconstructArray) on the real pointer code against a list model: every array length 0..3, all element values and all "
+                    "i64 indices; out-of-range indexing and popping an empty array stop with the array-out-of-bounds runtime error."),
+        level_note=("Bounded by array length <= 3. swap/remove/clear/find/contains/filled/clone/iteration are Abra source (prelude) and are "
+                    "not decided. string_nth_byte bounds (same failure mode) is a Verus proof in u3_str."),
+        technique="Kani harnesses on the real vm.rs (one per concrete array length) + Verus for StringNthByte",
+        scope="array arms of the VM",
+        assumptions=[],
+    ),
+    "C31": dict(
+        units=["u12_prec"],
+        level="model_checking",
+        level_text=("Precedence functions and token->operator maps are proved (Kani, loop-free, every operator/token) against the table in "
+                    "book/src/language_reference/operators.md read on each run; the real Pratt loop (parse_expr_bp/handle_postfix_expr, "
+                    "sliced) is executed on every token string of length <= 7 (8 thorough) over 27 tags and must build the reference tree."),
+        level_note=("The Pratt-loop obligations are exhaustive bounded execution of the sliced real code (CBMC could not afford it): bounded, "
+                    "not proved. Terms and call arguments are stubs; lexer, parentheses, lambdas not covered. One known finding: unary minus "
+                    "before a numeric literal groups differently (-2 % 3)."),
+        technique="Kani loop-free full-domain harnesses + exhaustive bounded execution of the sliced real Pratt loop against a reference built from operators.md",
+        scope="precedence tables and Pratt loop",
+        assumptions=[],
+    ),
+    "C18": dict(
+        units=["u13_named_args"],
+        level="model_checking",
+        level_text=("calculate_named_arg_order (sliced, compiled against the real utils crate) is executed on all 11,715 call shapes with "
+                    "arity <= 3, <= 4 arguments, every subset of defaults and names {a,b,c,zz}: for accepted shapes slot i holds positional "
+                    "argument i, else the argument named param_i, else default_i; no input panics."),
+        level_note=("Exhaustive bounded execution, not a proof. calculate_func_call_order's misuse diagnostics (needs StaticsContext) and the "
+                    "translator's emission order are not covered; surplus positional arguments are silently dropped (reported in DESIGN.md)."),
+        technique="exhaustive bounded execution of the sliced real function with type-substituted arguments",
+        scope="named/default argument ordering leaf",
+        assumptions=[],
+    ),
+    "C13": dict(
+        units=["u14_exhaustiveness"],
+        level="model_checking",
+        level_text=("Constructor::is_covered_by: Int/Bool/Product/Wildcard pairs proved by Kani over full domains; float and string literal "
+                    "spellings (every lexable spelling of length <= 5 over digits 0,1,5,9 plus long spellings) checked exhaustively: covered "
+                    "iff both spellings denote the same binary64 value. ConstructorSet::split partition facts for Bool/Product/Unlistable."),
+        level_note=("Second sentence of the property and leaves only: the usefulness recursion (unspecialize), arity and the enum split are "
+                    "not decided (same obstacle as C12). Float part is bounded enumeration, not proof."),
+        technique="Kani loop-free harnesses + exhaustive bounded execution of sliced real leaves",
+        scope="exhaustiveness leaves",
+        assumptions=[],
+    ),
+    "C16": dict(
+        units=["u2_float"],
+        level="proof",
+        level_text=("Float arms of step() on the real vm.rs, Kani loop-free over all bit patterns of every operand: + - * (register and "
+                    "immediate forms) apply the IEEE operator to (a, b) in that order and never stop; / stops with DivisionByZero exactly "
+                    "for a +-0.0 divisor, identically for literal and variable divisors; the five comparison arms and their immediate "
+                    "forms form one total order (le == !lt swapped, ge == le swapped, gt == lt swapped, eq == le && ge, trichotomy, "
+                    "reflexive, symmetric, transitive, consistent with numeric < on non-NaN); IntFromFloat never stops and truncates "
+                    "toward zero for |f| < 2^62; FloatFromInt is finite, exact below 2^53 and monotone."),
+        level_note=("Assumed: Rust f64 operators are IEEE-754 binary64; quotient values are not recomputed (CBMC cost). NOT verified: powf "
+                    "(^), sqrt, sin..log10, ceil/floor/round arms (no libm model in CBMC); unary float minus lowering (0.0 - x) and that "
+                    "float literals / folded constants denote the nearest binary64 (str::parse::<f64> / f64::to_string round trip, std). "
+                    "Kani's own NaN/float-overflow checks are switched off because they reject legitimate IEEE results."),
+        technique="Kani loop-free full-domain harnesses on lifted real match arms",
+        scope="float arithmetic/comparison/conversion arms of the VM",
+        assumptions=[],
+    ),
 }
 
 NOT_APPLICABLE = {
-    "C01": PENDING, "C04": PENDING, "C05": PENDING, "C06": PENDING, "C07": PENDING, "C08": PENDING,
-    "C09": PENDING, "C10": PENDING, "C11": PENDING, "C13": PENDING, "C16": PENDING, "C17": PENDING,
-    "C18": PENDING, "C26": PENDING, "C29": PENDING, "C30": PENDING, "C31": PENDING,
+
+    "C04": PENDING, "C05": PENDING, "C06": PENDING, "C07": PENDING, "C08": PENDING,
+    "C09": PENDING, "C10": PENDING, "C11": PENDING, 
+    "C29": PENDING, "C30": PENDING, 
     "C32": PENDING, "C33": PENDING, "C37": PENDING, "C38": PENDING,
     "C02": "needs a semantics-preservation proof of translate_expr/translate_stmt (3 kLoC AST recursion over Rc/HashMap/StaticsContext); no function-level contract short of compiler correctness expresses it",
     "C03": "reachability of unwrap/unreachable!/unimplemented! in the translator from every typed AST: no function-level precondition on StaticsContext can be stated and discharged with Verus/Kani",
